@@ -662,13 +662,27 @@ func (it *Iterator) parseItem() bool {
 		it.lastKey = y.SafeCopy(it.lastKey, mi.Key())
 	}
 
+	// In reverse iteration cand is the candidate filled on the previous pass (an older version
+	// of the same key). When a newer version supersedes it, its value prefetch must be waited
+	// for before the item is dropped: nobody else would, and the goroutine could outlive the
+	// iterator, the transaction and even DB.Close.
+	var cand *Item
+	discard := func() {
+		if cand != nil {
+			cand.wg.Wait()
+			it.waste.push(cand)
+			cand = nil
+		}
+	}
 FILL:
 	// If deleted, advance and return.
 	vs := mi.Value()
 	if isDeletedOrExpired(vs.Meta, vs.ExpiresAt) {
+		discard()
 		mi.Next()
 		return false
 	}
+	discard()
 
 	item := it.newItem()
 	it.fill(item)
@@ -686,6 +700,7 @@ FILL:
 	mik := y.ParseKey(mi.Key())
 	if nextTs <= it.readTs && bytes.Equal(mik, item.key) {
 		// This is a valid potential candidate.
+		cand = item
 		goto FILL
 	}
 	// Ignore the next candidate. Return the current one.
